@@ -108,6 +108,11 @@ func (p *AV1Payloader) Payload(mtu uint16, payload []byte) (payloads [][]byte) {
 				newSequence = false
 				currentPacketOBUHeader = nil
 			}
+		} else if needNewPacket {
+			// no OBU is waiting (the one before was a removed temporal delimiter or tile list):
+			// the packet boundary still has to be honoured by the OBU that follows
+			startWithNewPacket = true
+			currentPacketOBUHeader = nil
 		}
 		if obuHeader.ExtensionHeader != nil {
 			// this OBU opens the packet it goes into: later OBUs are compared with its layer ids
